@@ -47,7 +47,21 @@ def main():
                 edits = m['edits']
                 saved = {}
                 ok_apply = True
-                for (rel, old, new) in edits:
+                for ed in edits:
+                    if len(ed) == 4 and ed[0] == 're':
+                        # whole-file identifier rename: ('re', file, regex, replacement)
+                        _, rel, pat, repl = ed
+                        p = os.path.join(scratch, rel)
+                        src = open(p).read()
+                        saved.setdefault(p, src)
+                        new_src, cnt = re.subn(pat, repl, src)
+                        if cnt == 0:
+                            print('FAIL %-6s %s: regex %s matches nothing in %s' % (kind, m['name'], pat, rel))
+                            ok_apply = False
+                            break
+                        open(p, 'w').write(new_src)
+                        continue
+                    (rel, old, new) = ed
                     p = os.path.join(scratch, rel)
                     src = open(p).read()
                     saved.setdefault(p, src)
